@@ -22,7 +22,8 @@ class BranchProbe:
     def __init__(self, a5):
         import a5.core.cell as cellmod
         from a5.core.coordinate_transforms import from_lonlat, to_lonlat
-        from a5.core.origin import find_nearest_origin
+        from a5.core.origin import find_nearest_origin, origins, haversine
+        self.origins, self.haversine = origins, haversine
         self.D = cellmod._dodecahedron
         self.from_lonlat, self.to_lonlat, self.nearest = from_lonlat, to_lonlat, find_nearest_origin
         root = os.path.dirname(os.path.realpath(a5.__file__))
@@ -43,22 +44,25 @@ class BranchProbe:
         if self.cur is not None:
             self.cur.add((f, lineno))
 
+    def _pipeline(self, ll):
+        sph = self.from_lonlat(ll)
+        o = self.nearest(sph)
+        self.to_lonlat(self.D.inverse(self.D.forward(sph, o.id), o.id))
+        # the same point expressed on the edge-adjacent (second nearest) face: the reflected / squashed triangle branches
+        second = sorted(self.origins, key=lambda q: self.haversine(sph, q.axis))[1]
+        self.to_lonlat(self.D.inverse(self.D.forward(sph, second.id), second.id))
+
     def sig(self, ll, warm=True):
         """set of (file, line) executed by forward + inverse projection of the point (and the lon/lat conversions)"""
         if warm:
             try:   # once unobserved, so that lazily filled caches are warm and only input-dependent branches remain
-                sph = self.from_lonlat(ll)
-                o = self.nearest(sph)
-                self.to_lonlat(self.D.inverse(self.D.forward(sph, o.id), o.id))
+                self._pipeline(ll)
             except Exception:
                 pass
         self.cur = set()
         mon.set_events(TOOL, mon.events.LINE)
         try:
-            sph = self.from_lonlat(ll)
-            o = self.nearest(sph)
-            fp = self.D.forward(sph, o.id)
-            self.to_lonlat(self.D.inverse(fp, o.id))
+            self._pipeline(ll)
         except Exception:
             self.cur.add(('raised', 0))
         finally:
